@@ -46,6 +46,10 @@ fn gen_val(rng: &mut Rng, ty: Ty, null_pct: usize) -> Val {
         // Some(NaN): a non-null option holding a NaN
         return Val::F(f64::NAN);
     }
+    if ty.is_float() && rng.chance(1, 30) {
+        // infinities are ordinary (non-null) float values
+        return Val::F(if rng.chance(1, 2) { f64::INFINITY } else { f64::NEG_INFINITY });
+    }
     match ty {
         Ty::F64 | Ty::OptF64 => {
             let base = rng.range_i(-4, 9) as f64;
